@@ -363,6 +363,20 @@ let spec_check (know : int list) (s : sx) =
                                   (List.mem m (nset_to_list (oread st).rval)) (c04_member h k m))
           (List.mem m (nset_to_list (oread st).rval) = c04_member h k m)) [0; 1; 2]
   | "mvreg" -> cmp "C06" show_mv mv_perm_eqb (mvspec (history_of mvop_sx) k) (mv_sx s)
+  | "mapmv" | "mapor" | "mapmm" ->
+      (* key-level specification of Map (spec/MapSpec.v): map clock, key set, entry clocks *)
+      let ok = (match !ty with
+        | "mapmv" -> mkeyspec_ok (history_of (mop_sx mv_inst)) k (cmap_sx mv_inst s)
+        | "mapor" -> mkeyspec_ok (history_of (mop_sx or_inst)) k (cmap_sx or_inst s)
+        | _ -> mkeyspec_ok (history_of (mop_sx (map_inst mv_inst))) k (cmap_sx (map_inst mv_inst) s)) in
+      let cat = (if !merges_seen then "merge" else if !all_causal then "causal" else if !all_per_actor then "peractor" else "any") in
+      stat ("mapkey_" ^ (if ok then "ok_" else "bad_") ^ cat);
+      (* the known findings T1-T3 are about nested VALUES; none of them explains a key-level
+         disagreement, so this check is never attributed to a known finding *)
+      let saved = !classes in
+      classes := [];
+      expect "C05" (fun () -> "the map clock / key set / entry clocks differ from the key-level specification of the replica's knowledge (a key is present iff one of its applied updates is covered by no applied remove naming it)") ok;
+      classes := saved
   | "gcounter" | "vclock" -> cmp "C11" show_vc vc_eqb (gcspec (history_of dot_sx) k) (vc_sx s)
   | "pncounter" ->
       cmp "C11" (fun p -> show_vc p.pn_p ^ "/" ^ show_vc p.pn_n) pn_eqb (pnspec (history_of pnop_sx) k) (pn_sx s)
